@@ -368,12 +368,16 @@ impl<T> Future for ReceiveFuture<'_, T> {
                         if !this.sig.will_wake(cx.waker()) {
                             // the Waker is changed and we need to update waker in the waiting
                             // list
-                            if acquire_internal(this.internal).recv_signal_exists(&this.sig) {
+                            let internal = acquire_internal(this.internal);
+                            if internal.recv_signal_exists(&this.sig) {
                                 // signal is not shared with other thread yet so it's safe
-                                // to update waker locally
+                                // to update waker locally, the lock is held so no sender
+                                // can take the signal while the waker is replaced
                                 this.sig.register_waker(cx.waker());
+                                drop(internal);
                                 Poll::Pending
                             } else {
+                                drop(internal);
                                 // the signal is already shared, and data will be available shortly,
                                 // so wait synchronously and return the result
                                 // note: it's not possible safely to update waker after the signal
